@@ -61,6 +61,7 @@ NEGATIVE = [
     ("ExtentSelect", "SelNegHole.cfg", "HoleExact"),
     ("ExtentGrid", "GridNegKronGaps.cfg", "ValuesFollow"),
     ("ExtentGrid", "GridNegOpenBox.cfg", "CentresExact"),
+    ("ExtentGrid", "GridNegStored.cfg", "StoredEqualsLive"),
 ]
 KINDS = {"points", "curve", "surface", "drillhole", "group", "grid2d", "block", "octree"}
 CLASS = {"points": "Points", "curve": "Curve", "surface": "Surface", "drillhole": "Drillhole",
@@ -146,7 +147,30 @@ def _child(obj, name):
     return found[0] if len(found) == 1 else None
 
 
-def _check_vertex_copy(viol, kind, got, exp, verts, cells, none_ok, case, inv):
+def _arr(values):
+    return None if values is None else np.asarray(values, dtype=float)
+
+
+def _live_view(val):
+    """what the program sees of a copied vertex object"""
+    vd, cd = _child(val, "vd"), _child(val, "cd")
+    return {"vertices": val.vertices, "cells": getattr(val, "cells", None),
+            "vd": None if vd is None else _arr(vd.values), "cd": None if cd is None else _arr(cd.values)}
+
+
+def _stored_view(ws, val):
+    """what a reader of the file sees of the same copy (Workspace.fetch_array_attribute / fetch_values read the
+    HDF5 datasets, not the entity's cache): ExtentSelect.tla states that the stored copy is the copy"""
+    vd, cd = _child(val, "vd"), _child(val, "cd")
+    verts = ws.fetch_array_attribute(val, "vertices")
+    if verts is not None:
+        verts = np.asarray(verts).view("<f8").reshape((-1, 3))
+    cells = ws.fetch_array_attribute(val, "cells") if hasattr(val, "cells") else None
+    return {"vertices": verts, "cells": cells,
+            "vd": None if vd is None else _arr(ws.fetch_values(vd)), "cd": None if cd is None else _arr(ws.fetch_values(cd))}
+
+
+def _check_vertex_copy(viol, kind, got, exp, verts, cells, none_ok, case, inv, ws=None):
     """exp = spec copy record: verts (source vertex of each copied vertex), cells (re-indexed), csrc."""
     status, val = got
     if status == "raises":
@@ -161,41 +185,49 @@ def _check_vertex_copy(viol, kind, got, exp, verts, cells, none_ok, case, inv):
     if type(val).__name__ != CLASS[kind]:
         viol.add("copy-class", f"copy is a {type(val).__name__}", case, inv)
         return
-    gv = val.vertices
+    _check_vertex_view(viol, kind, "copy", _live_view(val), exp, verts, cells, want_v, case, inv)
+    if ws is not None:
+        status, view = _outcome(lambda: _stored_view(ws, val))
+        if status == "raises":
+            viol.add(f"stored-copy-raises:{type(view).__name__}", f"reading the stored copy raised {view}", case, inv)
+        else:
+            _check_vertex_view(viol, kind, "stored-copy", view, exp, verts, cells, want_v, case, inv)
+
+
+def _check_vertex_view(viol, kind, what, view, exp, verts, cells, want_v, case, inv):
+    gv = view["vertices"]
     gv = np.zeros((0, 3)) if gv is None else np.asarray(gv, dtype=float)
-    vd = _child(val, "vd")
-    vvals = None if vd is None or vd.values is None else np.asarray(vd.values, dtype=float)
+    vvals = view["vd"]
     if len(gv) and (vvals is None or vvals.shape != (len(gv),)):
-        viol.add("copy-vertex-data-shape", f"vertex data of the copy: {None if vvals is None else vvals.tolist()} "
-                                           f"for {len(gv)} vertices", case, inv)
+        viol.add(f"{what}-vertex-data-shape", f"vertex data of the {what}: {None if vvals is None else vvals.tolist()} "
+                                              f"for {len(gv)} vertices", case, inv)
         return
     have_v = sorted((tuple(map(float, gv[i])), float(vvals[i])) for i in range(len(gv)))
     if [h[0] for h in have_v] != [w[0] for w in want_v]:
-        viol.add("copy-vertices", f"copied vertices {[h[0] for h in have_v]} expected {[w[0] for w in want_v]}", case, inv)
+        viol.add(f"{what}-vertices", f"{what}: vertices {[h[0] for h in have_v]} expected {[w[0] for w in want_v]}", case, inv)
         return
     if have_v != want_v:
-        viol.add("copy-vertex-data", f"vertex data did not follow: {have_v} expected {want_v}", case, inv)
+        viol.add(f"{what}-vertex-data", f"{what}: vertex data did not follow: {have_v} expected {want_v}", case, inv)
     if kind == "points":
         return
     want_c = sorted((tuple(sorted(tuple(verts[exp["verts"][a]]) for a in cell)), _cval(src))
                     for cell, src in zip(exp["cells"], exp["csrc"]))
-    gc = getattr(val, "cells", None)
+    gc = view["cells"]
     gc = np.zeros((0, len(cells[0])), dtype=int) if gc is None else np.asarray(gc).astype(int)
     if gc.size and (gc.min() < 0 or gc.max() >= len(gv)):
-        viol.add("copy-cells-out-of-range", f"cells {gc.tolist()} with {len(gv)} vertices", case, inv)
+        viol.add(f"{what}-cells-out-of-range", f"{what}: cells {gc.tolist()} with {len(gv)} vertices", case, inv)
         return
-    cd = _child(val, "cd")
-    cvals = None if cd is None or cd.values is None else np.asarray(cd.values, dtype=float)
+    cvals = view["cd"]
     if len(gc) and (cvals is None or cvals.shape != (len(gc),)):
-        viol.add("copy-cell-data-shape", f"cell data of the copy: {None if cvals is None else cvals.tolist()} "
-                                         f"for {len(gc)} cells", case, inv)
+        viol.add(f"{what}-cell-data-shape", f"cell data of the {what}: {None if cvals is None else cvals.tolist()} "
+                                            f"for {len(gc)} cells", case, inv)
         return
     have_c = sorted((tuple(sorted(tuple(map(float, gv[a])) for a in cell)), float(cvals[k]))
                     for k, cell in enumerate(gc.tolist()))
     if [h[0] for h in have_c] != [w[0] for w in want_c]:
-        viol.add("copy-cells", f"copied cells join {[h[0] for h in have_c]} expected {[w[0] for w in want_c]}", case, inv)
+        viol.add(f"{what}-cells", f"{what}: cells join {[h[0] for h in have_c]} expected {[w[0] for w in want_c]}", case, inv)
     elif have_c != want_c:
-        viol.add("copy-cell-data", f"cell data did not follow: {have_c} expected {want_c}", case, inv)
+        viol.add(f"{what}-cell-data", f"{what}: cell data did not follow: {have_c} expected {want_c}", case, inv)
 
 
 def _check_data_copy(viol, ws, what, got, dmask, tok, miss, case, inv):
@@ -212,6 +244,10 @@ def _check_data_copy(viol, ws, what, got, dmask, tok, miss, case, inv):
     if vals is None or vals.shape != want.shape or not np.array_equal(vals, want, equal_nan=True):
         viol.add(f"{what}-wrong", f"Data.copy_from_extent values {None if vals is None else vals.tolist()} expected "
                  f"{want.tolist()}", case, inv)
+    status, stored = _outcome(lambda: _arr(ws.fetch_values(val)))
+    if status == "raises" or stored is None or stored.shape != want.shape or not np.array_equal(stored, want, equal_nan=True):
+        viol.add(f"stored-{what}-wrong", f"Data.copy_from_extent: stored values "
+                 f"{stored.tolist() if isinstance(stored, np.ndarray) else stored} expected {want.tolist()}", case, inv)
     ws.remove_entity(val)  # keep the source object's children as they were
 
 
@@ -254,7 +290,7 @@ def _replay_vertex_group(item):
                     seen.add(key)
                     stats["copies"] += 1
                     res = _outcome(lambda: obj.copy_from_extent(ext, inverse=inv))
-                    _check_vertex_copy(viol, kind, res, exp["copy"], verts, cells, exp["none_ok"], case, inv)
+                    _check_vertex_copy(viol, kind, res, exp["copy"], verts, cells, exp["none_ok"], case, inv, ws=ws)
                     # Data.copy_from_extent (data.py:112-140): a new data entry on the same parent whose
                     # values outside the data mask are blanked
                     for dat, dmask, tok, what in ((vd, exp["q"], _vval, "vertex-data-copy"), (cd, exp["ck"], _cval, "cell-data-copy")):
@@ -545,6 +581,18 @@ def _replay_grid_group(item):
                     rect = {k: s for k, s in want.items() if i0 <= (k - 1) % nu <= i1 and j0 <= (k - 1) // nu <= j1}
                     ok = have == rect
                 if ok:
+                    # the stored copy (what a reader of the file gets: Workspace.fetch_values reads the dataset,
+                    # not the cache) holds the same values as the live copy: ExtentGrid.tla StoredEqualsLive
+                    status, sv = _outcome(lambda: _arr(ws.fetch_values(ccd)))
+                    if status == "raises" or sv is None or sv.shape != (len(cpos),):
+                        viol.add("stored-copy-unreadable", f"stored cell data of the copy: {sv}", case, inv)
+                        continue
+                    stored = {k: 0 if np.isnan(v) else (int(v - 200.0) if float(v - 200.0).is_integer() else v)
+                              for k, v in zip(cpos, sv.tolist())}
+                    swant = {c["pos"]: c["src"] for c in exp["stored"]}
+                    if stored != have or (have == want and stored != swant):
+                        viol.add("stored-copy-wrong", f"the stored copy holds (cell -> value of cell, 0 = blank) {stored} "
+                                 f"but the live copy {have} (specified: {swant})", case, inv)
                     continue
                 asb = {c["pos"]: c["src"] for c in exp["asbuilt"]["cells"]}
                 if asb and have == asb:
